@@ -114,6 +114,17 @@ CHECKS["C06"] = dict(
          "specification's expectation and with get_setmap. Sampled (simulation), not exhaustive.",
     design="3/C06")
 
+CHECKS["C16"] = dict(
+    technique="TLA+ model of find_duplicates' digest-bucket + pop loop with arbitrary digest and pop order, checked by "
+              "TLC against the byte-equality partition; TLC-enumerated code bases replayed into report.find_duplicates",
+    text="TLC explores every content assignment, every digest function (collisions included) and every pop order of the "
+         "loop model and checks it returns exactly the byte-equality classes of size >= 2; every code base of N files over "
+         "a content pool (empty, length-only and one-byte differences) and five file kinds (regular, symlink, hard link, "
+         "excluded, non-source) is materialised with identical timestamps and report.find_duplicates plus the printed "
+         "section are compared with the reference groups. The real SHA-512 is used, so collision-only paths are covered by "
+         "the model, not by the replay.",
+    design="3/C16")
+
 PENDING_REASON = "check not built yet (build in progress; see DESIGN.md section 7)"
 
 
